@@ -243,6 +243,27 @@ func (h *c15) frameReq(p []byte) {
 			fmt.Sprintf("AddRequestFormat accepted a %d-byte payload, RemoveRequestFormat returned %d bytes (err=%v): silently altered", len(p), len(dec), derr), line)
 	}
 	h.out.Count("frame:req-ok")
+	// the decoder is handed buffers that are longer than the frame (the responder decodes whatever the
+	// query labels carry): bytes behind the frame must not change what is returned
+	for _, junk := range h.trailers() {
+		padded := exactCap(append(append([]byte(nil), enc...), junk...))
+		d2, e2 := msgformat.RemoveRequestFormat(padded)
+		h.out.Checked()
+		if len(padded) <= 600 {
+			h.out.Case("codec|rmreq|"+vlib.Hex(padded), okOrErr(d2, e2), e2 == nil)
+		}
+		if e2 != nil || !bytes.Equal(d2, p) {
+			h.out.OracleFail("C15:msgformat-request-trailing-bytes",
+				fmt.Sprintf("RemoveRequestFormat(frame of a %d-byte payload followed by %d more bytes) returned %d bytes (err=%v)", len(p), len(junk), len(d2), e2), line)
+		}
+		h.out.Count("frame:req-padded")
+	}
+}
+
+// trailers: what may follow a frame in the buffer it is decoded from (random bytes; zeros, as in the
+// zero-initialised 4096-byte receive buffer of RequestAndRecv)
+func (h *c15) trailers() [][]byte {
+	return [][]byte{h.r.Bytes(1 + h.r.Intn(8)), make([]byte, 1+h.r.Intn(40)), bytes.Repeat([]byte{0xff}, 3)}
 }
 
 func (h *c15) frameResp(p []byte) {
@@ -264,11 +285,67 @@ func (h *c15) frameResp(p []byte) {
 			fmt.Sprintf("AddResponseFormat accepted a %d-byte payload, RemoveResponseFormat returned %d bytes (err=%v): silently altered", len(p), len(dec), derr), line)
 	}
 	h.out.Count("frame:resp-ok")
+	// RequestAndRecv decodes its whole receive buffer, not the bytes received: a frame followed by
+	// zeros up to 4096 bytes, and by anything else, must decode to the same payload
+	trailers := h.trailers()
+	if len(enc) < 4096 {
+		trailers = append(trailers, make([]byte, 4096-len(enc)))
+	}
+	for _, junk := range trailers {
+		padded := exactCap(append(append([]byte(nil), enc...), junk...))
+		d2, e2 := msgformat.RemoveResponseFormat(padded)
+		h.out.Checked()
+		if len(padded) <= 600 {
+			h.out.Case("codec|rmresp|"+vlib.Hex(padded), okOrErr(d2, e2), e2 == nil)
+		}
+		if e2 != nil || !bytes.Equal(d2, p) {
+			h.out.OracleFail("C15:msgformat-response-trailing-bytes",
+				fmt.Sprintf("RemoveResponseFormat(frame of a %d-byte payload followed by %d more bytes) returned %d bytes (err=%v)", len(p), len(junk), len(d2), e2), line)
+		}
+		h.out.Count("frame:resp-padded")
+	}
+}
+
+// exactCap copies b into a slice whose capacity equals its length: a decoder that slices beyond the
+// data then panics instead of silently reading what happens to lie behind it.
+func exactCap(b []byte) []byte {
+	c := make([]byte, len(b))
+	copy(c, b)
+	return c
 }
 
 func (h *c15) frameDecode(p []byte) {
-	h.out.Case("codec|rmreq|"+vlib.Hex(p), guard(func() string { return okOrErr(msgformat.RemoveRequestFormat(p)) }), true)
-	h.out.Case("codec|rmresp|"+vlib.Hex(p), guard(func() string { return okOrErr(msgformat.RemoveResponseFormat(p)) }), true)
+	p = exactCap(p)
+	// the format, written down independently of the code: a length of one / two (big-endian) bytes, then
+	// that many bytes; a buffer shorter than that is an error, whatever follows is ignored
+	spec := func(hdr int) string {
+		if len(p) < hdr {
+			return "err invalidLength"
+		}
+		n := int(p[0])
+		if hdr == 2 {
+			n = int(p[0])<<8 | int(p[1])
+		}
+		if hdr+n > len(p) {
+			return "err invalidLength"
+		}
+		return "ok " + vlib.Hex(p[hdr:hdr+n])
+	}
+	for _, d := range []struct {
+		op  string
+		hdr int
+		f   func([]byte) ([]byte, error)
+	}{{"rmreq", 1, msgformat.RemoveRequestFormat}, {"rmresp", 2, msgformat.RemoveResponseFormat}} {
+		line := "codec|" + d.op + "|" + vlib.Hex(p)
+		ans := guard(func() string { return okOrErr(d.f(p)) })
+		h.out.Case(line, ans, true)
+		h.out.Checked()
+		if strings.HasPrefix(ans, "panic") {
+			h.out.OracleFail("C15:decoder-panics:"+d.op, "the frame decoder panics instead of returning an error: "+ans, line)
+		} else if ans != spec(d.hdr) {
+			h.out.OracleFail("C15:msgformat-decode-spec:"+d.op, fmt.Sprintf("the frame decoder answers %q, the format says %q", ans, spec(d.hdr)), line)
+		}
+	}
 	h.out.Count("frame:decode-arbitrary")
 }
 
@@ -287,6 +364,34 @@ func (h *c15) frames() {
 	}
 	for i := 0; i < vlib.Budget(400, 6000); i++ {
 		h.frameResp(h.r.Bytes(h.r.Intn(2000)))
+	}
+	// every (buffer length, announced length) pair around the point where the announced length meets
+	// the end of the buffer
+	for n := 0; n <= 24; n++ {
+		for b := 0; b <= n+2; b++ {
+			p := h.r.Bytes(n)
+			if n > 0 {
+				p[0] = byte(b)
+			}
+			h.frameDecode(p)
+			if n > 1 {
+				for _, hi := range []byte{0, 1, 0xff} {
+					q := h.r.Bytes(n)
+					q[0], q[1] = hi, byte(b)
+					h.frameDecode(q)
+				}
+			}
+		}
+	}
+	for _, n := range []int{254, 255, 256, 257, 258} {
+		for _, b := range []int{n - 2, n - 1, n, n + 1} {
+			p := h.r.Bytes(n)
+			p[0] = byte(b)
+			h.frameDecode(p)
+			q := h.r.Bytes(n)
+			q[0], q[1] = byte(b>>8), byte(b)
+			h.frameDecode(q)
+		}
 	}
 	for i := 0; i < vlib.Budget(600, 12000); i++ {
 		p := h.r.Bytes(h.r.Intn(40))
@@ -314,6 +419,41 @@ func (h *c15) txt(p []byte) {
 		h.out.OracleFail("C15:txt-roundtrip", fmt.Sprintf("DecodeRDataTXT(EncodeRDataTXT(p)) != p for len(p)=%d (err=%v)", len(p), err), line)
 	}
 	h.out.Count("txt:roundtrip")
+}
+
+// txtDecode: the TXT decoder on arbitrary bytes (exact-capacity buffer): an answer or an error, never a
+// panic; what it accepts is what the format says (character strings that fill the buffer exactly)
+func (h *c15) txtDecode(p []byte) {
+	p = exactCap(p)
+	line := "codec|dectxt|" + vlib.Hex(p)
+	var err error
+	ans := guard(func() string {
+		var dec []byte
+		dec, err = dns.DecodeRDataTXT(p)
+		return okOrErr(dec, err)
+	})
+	h.out.Case(line, ans, err == nil && strings.HasPrefix(ans, "ok"))
+	h.out.Checked()
+	spec := func() string {
+		var acc []byte
+		q := p
+		for {
+			if len(q) == 0 || len(q)-1 < int(q[0]) {
+				return "err eof"
+			}
+			acc = append(acc, q[1:1+int(q[0])]...)
+			q = q[1+int(q[0]):]
+			if len(q) == 0 {
+				return "ok " + vlib.Hex(acc)
+			}
+		}
+	}()
+	if strings.HasPrefix(ans, "panic") {
+		h.out.OracleFail("C15:decoder-panics:dectxt", "DecodeRDataTXT panics instead of returning an error: "+ans, line)
+	} else if ans != spec {
+		h.out.OracleFail("C15:txt-decode-spec", fmt.Sprintf("DecodeRDataTXT answers %.80q, the format says %.80q", ans, spec), line)
+	}
+	h.out.Count("txt:decode-arbitrary")
 }
 
 func (h *c15) txts() {
@@ -344,9 +484,7 @@ func (h *c15) txts() {
 				p = append(p, h.r.Bytes(n)...)
 			}
 		}
-		dec, err := func() (d []byte, e error) { return dns.DecodeRDataTXT(p) }()
-		h.out.Case("codec|dectxt|"+vlib.Hex(p), guard(func() string { return okOrErr(dec, err) }), err == nil)
-		h.out.Count("txt:decode-arbitrary")
+		h.txtDecode(p)
 	}
 }
 
@@ -479,7 +617,7 @@ func (h *c15) names() {
 	}
 	// the reader on arbitrary bytes and offsets
 	for i := 0; i < vlib.Budget(3000, 60000); i++ {
-		buf := h.nameBytes()
+		buf := exactCap(h.nameBytes())
 		pos := h.r.Intn(len(buf) + 2)
 		var ans string
 		ans = guard(func() string {
@@ -497,11 +635,23 @@ func (h *c15) names() {
 			case s := <-done:
 				return s
 			case <-time.After(2 * time.Second):
+			}
+			// a scheduling stall on a loaded machine is not a hang: the loop is bounded by the pointer
+			// limit, so a call that is still running after 20 more seconds does not terminate
+			h.out.Count("name:read-slow")
+			select {
+			case s := <-done:
+				return s
+			case <-time.After(20 * time.Second):
 				return "hang"
 			}
 		})
 		h.out.Case(fmt.Sprintf("codec|readname|%s|%d", vlib.Hex(buf), pos), ans, strings.HasPrefix(ans, "ok"))
 		h.out.Count("name:read-arbitrary-" + strings.SplitN(ans, " ", 3)[0])
+		if strings.HasPrefix(ans, "panic") {
+			h.out.Checked()
+			h.out.OracleFail("C15:decoder-panics:readname", "readName panics instead of returning an error: "+ans, fmt.Sprintf("codec|readname|%s|%d", vlib.Hex(buf), pos))
+		}
 	}
 }
 
@@ -571,12 +721,129 @@ func (p *namePool) fresh() dns.Name {
 	if h.r.Chance(1, 12) && len(ls) > 0 { // same letters, other case: not the same cache key
 		ls[len(ls)-1] = bytes.ToUpper(ls[len(ls)-1])
 	}
+	if len(p.names) > 0 && h.r.Chance(1, 5) { // a near-collision of an earlier name under a lossy cache key
+		if v := p.variant(p.names[h.r.Intn(len(p.names))], h.r.Intn(8)); v != nil {
+			p.names = append(p.names, v)
+			h.out.Count("msg:name-variant")
+			return v
+		}
+	}
 	n, err := dns.NewName(ls)
 	if err != nil {
 		return dns.Name{}
 	}
 	p.names = append(p.names, n)
 	return n
+}
+
+// variant: a name that a lossy cache key would confuse with base (the writer keys its suffix cache
+// by Name.String(): labels joined by dots, bytes outside [0-9A-Za-z-] as \xXX). Each kind is the
+// collision that one plausible change of the key would create: folding case, dropping the escape of
+// dots or of backslashes, dropping the separator, truncating or hashing the key.
+func (p *namePool) variant(base dns.Name, kind int) dns.Name {
+	h := p.h
+	ls := make([][]byte, len(base))
+	for i := range base {
+		ls[i] = append([]byte(nil), base[i]...)
+	}
+	if len(ls) == 0 {
+		return dns.Name{}
+	}
+	i := h.r.Intn(len(ls))
+	switch kind % 8 {
+	case 0: // other case of the same letters
+		for k := range ls[i] {
+			if c := ls[i][k]; ('a' <= c && c <= 'z') || ('A' <= c && c <= 'Z') {
+				ls[i][k] = c ^ 0x20
+				if h.r.Bool() {
+					break
+				}
+			}
+		}
+	case 1: // two labels joined by a literal dot
+		if len(ls) >= 2 {
+			j := h.r.Intn(len(ls) - 1)
+			merged := append(append(append([]byte(nil), ls[j]...), '.'), ls[j+1]...)
+			ls = append(append(append([][]byte{}, ls[:j]...), merged), ls[j+2:]...)
+		}
+	case 2: // a label split where it contains a dot (or given one)
+		k := bytes.IndexByte(ls[i], '.')
+		if k <= 0 || k == len(ls[i])-1 {
+			if len(ls[i]) >= 3 {
+				k = 1 + h.r.Intn(len(ls[i])-2)
+			} else {
+				k = -1
+			}
+		}
+		if k > 0 {
+			a, b := append([]byte(nil), ls[i][:k]...), append([]byte(nil), ls[i][k+1:]...)
+			ls = append(append(append([][]byte{}, ls[:i]...), a, b), ls[i+1:]...)
+		}
+	case 3: // the label spelled as its own escaped rendering (literal backslash, x, two hex digits)
+		var out []byte
+		done := false
+		for _, c := range ls[i] {
+			if !done && !(c == '-' || ('0' <= c && c <= '9') || ('A' <= c && c <= 'Z') || ('a' <= c && c <= 'z')) {
+				out = append(out, []byte(fmt.Sprintf("\\x%02x", c))...)
+				done = true
+			} else {
+				out = append(out, c)
+			}
+		}
+		if !done && len(out) > 0 { // nothing to escape: spell the last letter as an escape of itself
+			out = append(out[:len(out)-1], []byte(fmt.Sprintf("\\x%02x", out[len(out)-1]))...)
+		}
+		ls[i] = out
+	case 4: // the boundary between two labels moved by one byte
+		if len(ls) >= 2 {
+			j := h.r.Intn(len(ls) - 1)
+			if len(ls[j]) > 1 {
+				ls[j+1] = append([]byte{ls[j][len(ls[j])-1]}, ls[j+1]...)
+				ls[j] = ls[j][:len(ls[j])-1]
+			} else if len(ls[j+1]) > 1 {
+				ls[j] = append(ls[j], ls[j+1][0])
+				ls[j+1] = ls[j+1][1:]
+			}
+		}
+	case 5: // same length, last byte of a label differs
+		if n := len(ls[i]); n > 0 {
+			ls[i][n-1] ^= byte(1 + h.r.Intn(255))
+		}
+	case 6: // same length, first byte of the first label differs
+		if len(ls[0]) > 0 {
+			ls[0][0] ^= byte(1 + h.r.Intn(255))
+		}
+	default: // a byte that needs escaping in place of a letter (and the upper-case hex spelling of it)
+		if n := len(ls[i]); n > 0 {
+			ls[i][h.r.Intn(n)] = []byte{'.', '\\', 0x00, 0xe9, ' ', '_'}[h.r.Intn(6)]
+		}
+	}
+	n, err := dns.NewName(ls)
+	if err != nil {
+		return base
+	}
+	return n
+}
+
+// collisionMsg: base and variant names side by side, in both orders, so that whichever is written
+// first is in the cache when the other one is looked up
+func (h *c15) collisionMsg(base dns.Name, kind int) *dns.Message {
+	p := &namePool{h: h}
+	v := p.variant(base, kind)
+	sub, _ := dns.NewName(append([][]byte{[]byte("www")}, v...))
+	sub2, _ := dns.NewName(append([][]byte{[]byte("www")}, base...))
+	m := &dns.Message{ID: uint16(kind), Flags: 0x8400}
+	names := []dns.Name{base, v, sub, sub2, base, v}
+	if h.r.Bool() {
+		names = []dns.Name{v, base, sub2, sub, v, base}
+	}
+	for k, n := range names {
+		if n == nil {
+			continue
+		}
+		m.Answer = append(m.Answer, dns.RR{Name: n, Type: 16, Class: 1, TTL: 60, Data: []byte{byte(k)}})
+	}
+	return m
 }
 
 func (p *namePool) pick() dns.Name {
@@ -755,6 +1022,27 @@ func (h *c15) messages() {
 	h.message(&dns.Message{ID: 4, Question: []dns.Question{{Name: dns.Name{[]byte("ok"), []byte{}}, Type: 1, Class: 1}}}, true)
 	h.message(&dns.Message{ID: 4, Answer: []dns.RR{{Name: dns.Name{h.label(64)}, Type: 1, Class: 1}}}, true)
 
+	// names that differ only in what a lossy cache key would drop (case, the escaping of dots and
+	// backslashes, label boundaries, a last byte): every kind against fixed and random base names
+	mk := func(labels ...string) dns.Name {
+		var ls [][]byte
+		for _, l := range labels {
+			ls = append(ls, []byte(l))
+		}
+		n, _ := dns.NewName(ls)
+		return n
+	}
+	bases := []dns.Name{mk("a", "b", "c"), mk("a.b", "c"), mk("a\\x2eb", "c"), mk("A", "b", "c"), mk("abcdefgh", "t", "example", "com"),
+		mk("ns1", "EXAMPLE", "COM"), mk("x-1", "a\\b", "c.d"), mk(strings.Repeat("k", 63), strings.Repeat("m", 40), "t", "example", "com")}
+	for _, b := range bases {
+		for kind := 0; kind < 8; kind++ {
+			h.message(h.collisionMsg(b, kind), true)
+		}
+	}
+	for i := 0; i < vlib.Budget(80, 2000); i++ {
+		p := &namePool{h: h}
+		h.message(h.collisionMsg(p.fresh(), i), true)
+	}
 	for i := 0; i < vlib.Budget(1200, 20000); i++ {
 		h.message(h.randMsg(), true)
 	}
@@ -801,6 +1089,7 @@ func (h *c15) messages() {
 		}
 		var m dns.Message
 		var err error
+		buf = exactCap(buf)
 		ans := guard(func() string {
 			m, err = dns.MessageFromWireFormat(buf)
 			if err != nil {
@@ -810,6 +1099,10 @@ func (h *c15) messages() {
 		})
 		h.out.Case("codec|parse|"+vlib.Hex(buf), ans, err == nil)
 		h.out.Count("msg:parse-arbitrary-" + strings.SplitN(ans, " ", 3)[0])
+		if strings.HasPrefix(ans, "panic") {
+			h.out.Checked()
+			h.out.OracleFail("C15:decoder-panics:parse", "MessageFromWireFormat panics instead of returning an error: "+ans, "codec|parse|"+vlib.Hex(buf))
+		}
 		if err == nil && !strings.HasPrefix(ans, "panic") {
 			// whatever the decoder accepts, the encoder accepts and the decoder returns again
 			h.out.Checked()
